@@ -438,6 +438,30 @@ def gen_notify():
     out += ["]", "", "end Nun.Gen", ""]
     return "\n".join(out)
 
+def command_table():
+    """(command word, parser) pairs of PARSER_HASH_TABLE, in source order"""
+    text = src("parse_request.rs")
+    m = re.search(r"static ref PARSER_HASH_TABLE.*?\{(.*?)\n\s*map\s*\n?\s*\};", text, re.S)
+    body = m.group(1) if m else text[: text.find("impl Request")]
+    rows = re.findall(r'map\.insert\(\s*"([^"]+)"\s*,\s*([^;]+?)\)\s*;', body, re.S)
+    if len(rows) < 10: raise ExtractError(f"command table of parse_request.rs: only {len(rows)} rows found")
+    out = []
+    for w, f in rows:
+        f = re.sub(r"\s+", " ", f.strip())
+        out.append((w, f if re.fullmatch(r"\w+", f) else "closure"))
+    return out
+
+def gen_commands():
+    rows = command_table()
+    out = ["namespace Nun.Gen", "",
+           "/-- the command vocabulary of `Request::parse`: (command word, parser function — `closure` for an inline one), in source order -/",
+           "def commandTable : List (List Nat × List Nat) := ["]
+    for ix, (w, f) in enumerate(rows):
+        out.append(f"  -- {w} -> {f}")
+        out.append(f"  ({bytes_lit(w)}, {bytes_lit(f)})" + ("," if ix + 1 < len(rows) else ""))
+    out += ["]", "", "end Nun.Gen", ""]
+    return "\n".join(out)
+
 def write(name, text):
     os.makedirs(OUT, exist_ok=True)
     p = os.path.join(OUT, name)
@@ -447,7 +471,7 @@ def write(name, text):
 
 def main():
     errors = []
-    for name, fn in [("Lits.lean", gen_lits), ("Guards.lean", gen_guards), ("PanicSites.lean", gen_panic_sites), ("Atomic.lean", gen_atomic), ("Close.lean", gen_close), ("Notify.lean", gen_notify)]:
+    for name, fn in [("Lits.lean", gen_lits), ("Guards.lean", gen_guards), ("PanicSites.lean", gen_panic_sites), ("Atomic.lean", gen_atomic), ("Close.lean", gen_close), ("Notify.lean", gen_notify), ("Commands.lean", gen_commands)]:
         try:
             write(name, "-- GENERATED by extract/extract.py from /repo/src — do not edit\n" + fn())
         except ExtractError as e:
